@@ -136,7 +136,7 @@ def readloop(ctx, thorough):
             if e["a"] == "read":
                 ks = [(t["k"], t["i"]) for t in e["toks"]]
                 heads = [i for k2, i in ks if k2 == "rpch"]
-                if heads and any(k2 in ("hdr", "body", "end") and i != heads[-1] for k2, i in ks) and not any(k2 == "rpc" and i == heads[-1] for k2, i in ks):
+                if heads and any(k2 in ("hdr", "body", "sbody", "end") and i != heads[-1] for k2, i in ks) and not any(k2 == "rpc" and i == heads[-1] for k2, i in ks):
                     return True
         return False
     hot = [s2 for s2 in split if between(s2)]
@@ -270,6 +270,7 @@ def run(ctx):
         if not rr["ok"]:
             rp = dict(scns[rr["id"]])
             rp["version"], rp["seg"] = rr["variant"].split("/")
+            rp["idx"] = rr["id"]
             kind = rr["sig"].split(":")[-1]
             st = confirmed.setdefault(kind, {"ok": 0, "tries": 0})
             if st["ok"]:
